@@ -1,6 +1,6 @@
 """C09 — allOf means intersection: an unsatisfiable conjunction never becomes permissive (one clause)."""
 import re
-from lib import (norm_arm, walk, nodes, ends, src, psrc, outcome, contains_node, pat_top_variants, short, calls_in, block_last,
+from lib import (Canon, norm_arm, walk, nodes, ends, src, psrc, outcome, contains_node, pat_top_variants, short, calls_in, block_last,
                  strip_refs, guards, gtext, top_stmts)
 
 EXPLANATION = (
@@ -9,7 +9,13 @@ EXPLANATION = (
     "merge_all — is, at each site where it is consumed, propagated with `?`, mapped to Schema::Bool(false), matched with an Err "
     "arm that builds the uninhabited type, tested, or is one of the tabled drops (a branch of anyOf/oneOf that cannot be merged "
     "is removed); at the converter's call sites the unsatisfiable outcome reaches the empty-enum constructor, directly or "
-    "through convert_schema's `false` arm; the empty-enum constructor builds an enum with no variants."
+    "through convert_schema's `false` arm; the empty-enum constructor builds an enum with no variants; (D1) in the merge "
+    "machinery a comparison of a count with a min*/max* bound that answers 'unsatisfiable' is strict — JSON Schema bounds are "
+    "inclusive, so equality must merge; (D2) where a binary merge sorts members into 'only in the first operand' / 'only in the "
+    "second operand' cases, the two cases are handled by mirror-image code (swapping the operands maps one arm onto the other): "
+    "a necessary condition for the result not to depend on subschema order; (D3) every case analysis `match (f(a), f(b))` over "
+    "the two operands of a binary function on schemas (merges, the rough-equality and mutual-exclusion predicates) has a set of "
+    "pattern alternatives that is closed under swapping the operands — `(None, x)` is never handled without `(x, None)`."
 )
 ASSUMPTIONS = ["the pairwise merge functions compute intersections (not decided)"]
 
@@ -26,6 +32,8 @@ def is_unit_result(t):
 
 def run(facts, rep, tier):
     c = facts.impl
+    run_d(facts, rep, tier)
+    run_d3(facts, rep, tier)
     # ------------------------------------------------------------ consumption of Result<_, ()>
     n = 0
     for h in c.user_fns():
@@ -154,3 +162,149 @@ def run(facts, rep, tier):
         cnm = Canon(c, tma[0], 3)
         first = [x for x, _ in nodes(body, "call") if x.get("fn", "").endswith("merge::try_merge_schema") and [cnm.r(a) for a in x["args"][:2]] == ["$&[Schema].0", "$&[Schema].1"]]
         rep.ob("C09.W1", "merge_all-folds-every-subschema", bool(loops) and bool(first), "first two subschemas are merged, then every remaining one is folded in")
+
+
+class PCanon(Canon):
+    """Canon with positional parameter names, so that the two operands of a binary merge stay distinguishable."""
+
+    def param_name(self, idx):
+        return "$P%d" % idx
+
+    def r(self, n, depth=0, env=None):
+        t = Canon.r(self, n, depth, env)
+        # `match (a, b) { (Some(aa), Some(bb)) => ..` : project the tuple literal
+        return t.replace("($P0, $P1).0", "$P0").replace("($P0, $P1).1", "$P1")
+
+
+def swap_sides(text, v0, v1):
+    text = text.replace("$P0", "$P\0").replace("$P1", "$P0").replace("$P\0", "$P1")
+    a, b = "~" + v0, "~" + v1
+    text = re.sub(re.escape(a) + r"\b", "~\0", text)
+    text = re.sub(re.escape(b) + r"\b", a, text)
+    return text.replace("~\0", b)
+
+
+def run_d(facts, rep, tier):
+    c = facts.impl
+    merge_fns = [h for h in c.user_fns() if re.search(r"Result<.*, \(\)>$", c.fns.get(h["fn"], {}).get("output", ""))]
+    # ------------------------------------------------------------ D1 strict bound tests
+    n1 = 0
+    for h in merge_fns:
+        cn = None
+        for n, anc in walk(h["body"]):
+            if n.get("k") == "if" and outcome(n["then"]) == "ret-err":
+                for x, _ in walk(n["cond"]):
+                    if x.get("k") == "bin" and x["op"] in ("Lt", "Le", "Gt", "Ge"):
+                        cn = cn or PCanon(c, h, 4)
+                        n1 += 1
+                        key = "%s#%d" % (h["fn"], sum(1 for o in rep.obligations if o["key"].startswith("C09.D1/bound-test-is-strict:%s#" % h["fn"])))
+                        ok = x["op"] in ("Lt", "Gt")
+                        rep.ob("C09.D1", "bound-test-is-strict:" + key, ok, "`%s` is strict" % src(x)[:60] if ok else
+                               "`%s` answers unsatisfiable when the count equals the bound: minItems/maxItems/min-/maxProperties are inclusive, so a satisfiable conjunction (exactly that many members) becomes the uninhabited type" % src(x)[:80], x.get("sp") or n.get("sp"))
+    rep.floor("C09.D1", "bound comparisons that answer unsatisfiable", n1, 3)
+
+    # ------------------------------------------------------------ D2 mirror arms
+    n2 = 0
+    for h in merge_fns:
+        ins = c.fns[h["fn"]].get("inputs", [])
+        if len(ins) < 2 or ins[0] != ins[1]:
+            continue
+        cn = PCanon(c, h, 4)
+        # which variants of a local enum are built from one operand only
+        side = {}
+        for n, _ in nodes(h["body"], "call"):
+            if n.get("res") == "ctor" and n.get("fn") and n.get("args"):
+                t = " ".join(cn.r(a) for a in n["args"])
+                has0, has1 = "$P0" in t, "$P1" in t
+                if has0 != has1:
+                    side.setdefault(n["fn"], set()).add(0 if has0 else 1)
+        one_sided = {k: list(v)[0] for k, v in side.items() if len(v) == 1 and not k.split("::")[-1] in ("Some", "Ok", "Err", "Box")}
+        for m, manc in walk(h["body"]):
+            if m.get("k") != "match" or m.get("src") != "normal":
+                continue
+            # the members being sorted are the parameters of the enclosing closure: keep them opaque so that only
+            # the treatment of the two sides is compared, not the (ordered) iteration that produced the member
+            env = {}
+            cl = [a for a in manc if a.get("k") == "closure"]
+            if cl:
+                k = 0
+                for pp in cl[-1].get("params", []):
+                    for b, _ in walk(pp):
+                        if b.get("k") == "bind":
+                            env[b["name"]] = "@%d" % k
+                            k += 1
+            arms = {}
+            for a in m["arms"]:
+                vs = pat_top_variants(a["pat"])
+                if len(vs) == 1 and vs[0] in one_sided:
+                    arms[vs[0]] = a
+            by_enum = {}
+            for v, a in arms.items():
+                by_enum.setdefault(v.rsplit("::", 1)[0], []).append((v, a))
+            for en, lst in by_enum.items():
+                s0 = [(v, a) for v, a in lst if one_sided[v] == 0]
+                s1 = [(v, a) for v, a in lst if one_sided[v] == 1]
+                if len(s0) == 1 and len(s1) == 1:
+                    n2 += 1
+                    (v0, a0), (v1, a1) = s0[0], s1[0]
+                    t0, t1 = cn.r(a0["body"], 0, env), cn.r(a1["body"], 0, env)
+                    g0 = cn.r(a0["guard"], 0, env) if a0.get("guard") else ""
+                    g1 = cn.r(a1["guard"], 0, env) if a1.get("guard") else ""
+                    sv0, sv1 = v0.split("::")[-1], v1.split("::")[-1]
+                    ok = swap_sides(t0, sv0, sv1) == t1 and swap_sides(g0, sv0, sv1) == g1
+                    rep.ob("C09.D2", "mirror-arms:%s/%s" % (h["fn"], en.split("::")[-1]), ok,
+                           "the arm for members only in the first operand and the arm for members only in the second are mirror images" if ok else
+                           "members that occur only in the first operand are handled by `%s` but those only in the second by `%s`: the merge depends on the order of the subschemas (and one side escapes the other side's constraints)" % (src(a0["body"])[:70], src(a1["body"])[:70]), a1.get("sp"))
+    rep.floor("C09.D2", "one-sided case pairs in binary merges", n2, 1)
+
+
+def anon_pat(p):
+    """pattern text with binder names anonymised"""
+    k = p.get("k")
+    if k == "bind":
+        return "_" if not p.get("sub") else anon_pat(p["sub"])
+    if k == "wild":
+        return "_"
+    if k == "tuple":
+        return "(" + ",".join(anon_pat(x) for x in p["pats"]) + ")"
+    if k == "or":
+        return "|".join(sorted(anon_pat(x) for x in p["pats"]))
+    if k == "tstruct":
+        return p["path"].split("::")[-1] + "(" + ",".join(anon_pat(x) for x in p["pats"]) + ")"
+    if k == "struct":
+        return p["path"].split("::")[-1] + "{" + ",".join("%s:%s" % (n, anon_pat(x)) for n, x in sorted(p["fields"], key=lambda z: z[0])) + "}"
+    if k == "path":
+        return p["path"].split("::")[-1]
+    if k == "lit":
+        return str(p.get("v"))
+    return psrc(p)
+
+
+def run_d3(facts, rep, tier):
+    c = facts.impl
+    n3 = 0
+    for h in c.user_fns():
+        ins = c.fns.get(h["fn"], {}).get("inputs", [])
+        if len(ins) < 2 or ins[0] != ins[1]:
+            continue
+        cn = PCanon(c, h, 3)
+        k_in = 0
+        for m, _ in nodes(h["body"], "match"):
+            if m.get("src") != "normal" or m["scrut"].get("k") != "tup" or len(m["scrut"]["es"]) != 2:
+                continue
+            e0, e1 = cn.r(m["scrut"]["es"][0]), cn.r(m["scrut"]["es"][1])
+            if swap_sides(e0, "#", "#") != e1 or "$P" not in e0:
+                continue
+            alts = set()
+            for a in m["arms"]:
+                p = a["pat"]
+                for q in (p["pats"] if p.get("k") == "or" else [p]):
+                    if q.get("k") == "tuple" and len(q["pats"]) == 2:
+                        alts.add((anon_pat(q["pats"][0]), anon_pat(q["pats"][1])))
+            missing = sorted((x, y) for x, y in alts if (y, x) not in alts)
+            n3 += 1
+            rep.ob("C09.D3", "cases-closed-under-swap:%s#%d" % (h["fn"], k_in), not missing,
+                   "%d pattern alternatives, closed under operand swap" % len(alts) if not missing else
+                   "the case (%s, %s) is handled but its mirror image (%s, %s) is not: the result depends on which subschema comes first" % (missing[0][0], missing[0][1], missing[0][1], missing[0][0]), m.get("sp"))
+            k_in += 1
+    rep.floor("C09.D3", "symmetric case analyses over two operands", n3, 18)
